@@ -564,6 +564,21 @@ def check_C10(work, prop, tier, seed, t0):
                 break
             os.remove(path)
             raise Infra("node violation did not reproduce: %s" % info)
+    # conformance of the raw-lane model itself: ArtNode stepped next to random ramps of the real node (informative)
+    node_drift = None
+    if not violations:
+        wt = work.path("node-walks.ndjson")
+        run_drive(drive, ["node", "-out", wt, "-seed", str(seed + 7), "-walks", str(6 if q else 18), "-stats", work.path("node-walks.json")])
+        wfiles = split_at(wt, '{"op":"nreset"', 1 << 20)
+        dres = validate_many(work, wfiles, ["NodeDriftFree"], module="TraceNodeDrift", spec="DriftSpec")
+        node_drift = {"files": len(wfiles), "steps": sum(x.states for x in dres), "drift_free": all(x.ok for x in dres)}
+        for x in dres:
+            if x.invariant:
+                node_drift["first_drift"] = "%s line %s" % (os.path.basename(x.file), x.line)
+                break
+            if x.error:
+                node_drift["error"] = x.error[-300:]
+                break
     # the 4/16/48/256-slot probes are also INLINED in Search of the generated trees and of the hand-written collation
     # tree: drive them through real trees whose nodes carry stale lanes (full node, largest / smallest child removed, ...)
     tree_out = None
@@ -590,7 +605,8 @@ def check_C10(work, prop, tier, seed, t0):
                    "primitive sweeps over crafted lanes (4-slot: all words over the alphabet x fill 0..4; 16-slot: fill x lane x value) "
                    "with 256 probes each; distinct_nontrivial = distinct model transitions replayed",
            "trace_lines_validated_by_TLC": total_lines, "model_runs": model_runs, "node_states_by_class": kinds,
-           "variants": [v for v, _ in variants], "exhaustive": False}
+           "variants": [v for v, _ in variants], "exhaustive": False,
+           "model_drift_ArtNode_vs_real_raw_lanes": node_drift}
     write_evidence(prop, tier, seed, "model_checking", cov, time.time() - t0, violations, ASSUME_BASE + [
         "node16_arm64.s cannot be executed in this sandbox (no arm64 emulator): only amd64 assembly and (thorough) the portable fallback under GOARCH=386 are bound",
         "insertPosNode4 is specified as first-greater-or-equal over all four lanes (the code's actual contract), insertPosNode16 as first-greater within the fill count"])
